@@ -120,6 +120,15 @@ pub fn replay(cases: &str, verdicts: &str) {
         let sub = |e: &[f64]| -> Vec<f64> { (0..x.len()).flat_map(|i| e[i * y.len()..i * y.len() + x.len()].to_vec()).collect() };
         judge_gram(&mut v, "RQ", &format!("{} equal-size-sets", class), &c, gram_forms(&rq, &x, yq), &sub(&e_rq), x.len(), x.len(), var);
         judge_gram(&mut v, "RBF", &format!("{} equal-size-sets", class), &c, gram_forms(&rbf, &x, yq), &sub(&e_rbf), x.len(), x.len(), var);
+        // a sequence of calls on permuted point sets (no state may survive between calls): reversed first argument = reversed rows
+        {
+            let xr: Vec<f64> = x.iter().rev().cloned().collect();
+            let rev_rows = |e: &[f64]| -> Vec<f64> { (0..x.len()).rev().flat_map(|i| e[i * y.len()..(i + 1) * y.len()].to_vec()).collect() };
+            let _warm = gram_forms(&rq, &x, &y);
+            judge_gram(&mut v, "RQ", &format!("{} after-permuted-call", class), &c, gram_forms(&rq, &xr, &y), &rev_rows(&e_rq), x.len(), y.len(), var);
+            let _warm = gram_forms(&rbf, &x, &y);
+            judge_gram(&mut v, "RBF", &format!("{} after-permuted-call", class), &c, gram_forms(&rbf, &xr, &y), &rev_rows(&e_rbf), x.len(), y.len(), var);
+        }
         // Gram matrix of one point set with itself: symmetric bit for bit, diagonal = variance
         for (form, g) in gram_forms(&rq, &x, &x).into_iter().chain(gram_forms(&rbf, &x, &x)) {
             let n = x.len();
